@@ -128,8 +128,18 @@ pub fn parallel_parse(
 
         Box::new(move |result| {
             let result = result.context("Failed traversing").and_then(|dir_entry| {
-                parse_dir_entry(parse_context, language_type, &dir_entry)
-                    .with_context(|| format!("Parsing failed: {:?}", dir_entry.path()))
+                // A panic that unwinds out of this closure leaves the parallel walker waiting
+                // for a worker that is gone, and the process hangs. Turn it into an error for
+                // this file instead.
+                std::panic::catch_unwind(std::panic::AssertUnwindSafe(|| {
+                    parse_dir_entry(parse_context, language_type, &dir_entry)
+                }))
+                .unwrap_or_else(|_| {
+                    Err(ParseError::IOError(
+                        "internal error (panic) while parsing this file".into(),
+                    ))
+                })
+                .with_context(|| format!("Parsing failed: {:?}", dir_entry.path()))
             });
             match result {
                 Ok(Some(parsed_data)) => {
